@@ -499,9 +499,9 @@ from vf import pipeline, wbspec
 text = eval(sys.argv[1])
 d = tempfile.mkdtemp(dir=sys.argv[2])
 path = wbspec.write(wbspec.spec(wbspec.sheet('S', {'A1': 1, 'A2': 2, 'A3': 3, 'F1': text})), os.path.join(d, 'b.xlsx'))
-t0 = time.perf_counter()
+t0 = time.process_time()
 t = pipeline.translate(path, entry=pipeline.entry_cell('S', 'F1'))
-print('ELAPSED', time.perf_counter() - t0, t.kind)
+print('ELAPSED', time.process_time() - t0, t.kind)
 """
 
 
@@ -510,7 +510,8 @@ def run_scaling(ctx):
     texts that make a pattern with overlapping repeats split them in polynomially many ways are timed in a process of their own at two
     sizes.  Verdict by growth, not by a deadline: refusing / translating a text of 2n characters more than 3.2 times slower than one of n
     AND slower than 4 s is a hang in the making (linear: 2x per doubling, quadratic 4x, cubic 8x); a process killed at the 90 s watchdog with a fast small
-    size counts the same; anything else slow is inconclusive (a loaded machine), never a violation."""
+    size counts the same; anything else slow is inconclusive (a loaded machine), never a violation.  Times are CPU times of the child
+    process (time.process_time), the watchdog alone is wall clock."""
     import subprocess
     import sys
     r = ctx.r
